@@ -301,6 +301,87 @@ fn check_cli(c: &Case, ctx: &Ctx) -> Outcome {
     }
 }
 
+// ---- large tables (thousands of k-mers, multi-frame files) round trip
+
+#[derive(Clone, Debug, Serialize, Deserialize)]
+pub struct LargeCase {
+    pub k: usize,
+    pub rc: bool,
+    pub n: usize,
+    pub rows: u16,
+    pub fits64: bool,
+    pub content_seed: u64,
+}
+
+fn large_strategy() -> BoxedStrategy<LargeCase> {
+    (gen::k_strategy(), any::<bool>(), 1usize..=6, 1500u16..9000, any::<bool>(), any::<u64>())
+        .prop_map(|(k, rc, n, rows, fits64, content_seed)| LargeCase { k, rc, n, rows, fits64, content_seed })
+        .boxed()
+}
+
+fn large_table(c: &LargeCase) -> Table {
+    let mut st = c.content_seed;
+    let mut next = || {
+        st = st.wrapping_add(0x9E37_79B9_7F4A_7C15);
+        crate::engine::splitmix64(st)
+    };
+    let bits = 2 * (c.k - 1);
+    let eff = if c.fits64 && c.k >= 35 { 64 } else { bits };
+    let mut rows = std::collections::BTreeMap::new();
+    // at small k the space is small: cap the number of rows
+    let want = (c.rows as usize).min(if bits < 20 { 1usize << (bits - 2) } else { usize::MAX });
+    while rows.len() < want {
+        let v = ((next() as u128) << 64) | next() as u128;
+        let x = if eff >= 128 { v } else { v & ((1u128 << eff) - 1) };
+        let syms: Vec<u8> = (0..c.n).map(|_| b"ACGTACGT--RYSWKMN"[(next() % 17) as usize]).collect();
+        if syms.iter().all(|b| *b == b'-') {
+            continue;
+        }
+        rows.insert(model::unpack_arms(x, c.k), syms);
+    }
+    Table { names: sample_names(c.n, "L"), rows }
+}
+
+fn check_large(c: &LargeCase, ctx: &Ctx) -> Outcome {
+    let t = large_table(c);
+    let dir = ctx.case_dir();
+    let path = dir.join("large.skf");
+    let r: Result<u64, String> = (|| {
+        if c.k <= 31 {
+            save_table::<u64>(&t, c.k, c.rc, &path, false)?;
+        } else {
+            save_table::<u128>(&t, c.k, c.rc, &path, false)?;
+        }
+        let size = std::fs::metadata(&path).map(|m| m.len()).unwrap_or(0);
+        let (width, t2, disp, _dbg, k2, rc2) = dispatch_load(&cli::p(&path))?;
+        if width != k_bits_for(c.k) {
+            return Err(format!("file written with {}-bit k-mers read back as {width}-bit", k_bits_for(c.k)));
+        }
+        if k2 != c.k || rc2 != c.rc {
+            return Err(format!("reloaded k={k2} rc={rc2}"));
+        }
+        if t2 != t {
+            return Err(format!("reloaded content differs: {}", table_diff(&t2, &t)));
+        }
+        if !disp.contains(&format!("k-mers={}", t.rows.len())) {
+            return Err("nk summary reports a wrong number of k-mers".into());
+        }
+        Ok(size)
+    })();
+    let r = std::panic::catch_unwind(std::panic::AssertUnwindSafe(|| r)).unwrap_or_else(|e| Err(panic_msg(&e)));
+    ctx.done(&dir);
+    match r {
+        Err(m) => Outcome::Fail(format!("k={} rc={} samples={} rows={} fits64={} content_seed={}: {m}", c.k, c.rc, c.n, t.rows.len(), c.fits64, c.content_seed)),
+        Ok(size) => {
+            let mut cl = vec![];
+            if size > 65536 { cl.push("multi_frame_file"); }
+            if c.fits64 && c.k >= 35 { cl.push("k>=35_fits_64_bits"); }
+            if c.k >= 33 { cl.push("128bit"); }
+            pass(size > 65536 || (c.fits64 && c.k >= 35), key_of(&(c.k, c.rc, c.n, c.rows, c.fits64, c.content_seed)), cl)
+        }
+    }
+}
+
 const RULE: &str = "generated: every valid k (uniform + weight on 31/33/35/37/63), 1-4 samples; classes: ordinary, every stored k-mer fits 64 bits (k>=35: records A^(k-33+j)+33 random bases, length k..k+3), mixture, emptied table. In-process: build -> MergeSkaArray -> save -> load by the CLI's 64-then-128 dispatch: width used == width written, k/strand/names/rows (harness decoder) and nk text identical; align (generated filters), distance, delete, weed give identical results on the reloaded and the in-memory array. CLI: nk == model incl. k_bits; merge with an ordinary file in both orders, weed, delete, align == model; map of a sample against its own records == map model. Non-trivial: k>=35 file that fits 64 bits, or mixture, or k in {31,33,35}, or empty table.";
 
 fn show(c: &Case) -> serde_json::Value {
@@ -312,6 +393,7 @@ fn stages(tier: Tier) -> Vec<Box<dyn Stage>> {
     vec![
         gen_stage_show("inproc", RULE, tier.pick(8000, 100_000), 400, case_strategy, check_inproc, show),
         gen_stage_show("cli", RULE, tier.pick(800, 10_000), 150, case_strategy, check_cli, show),
+        gen_stage_show("large", "generated: tables of 1500-9000 random k-mers (content a pure function of the case's content_seed), 1-6 samples, every valid k, half of the k>=35 tables restricted to 64-bit-fitting k-mers; written through the public API, reloaded by the 64-then-128 dispatch: width, k, strand, names and every row identical. Non-trivial: file larger than one snappy frame (64 KiB) or a 64-bit-fitting k>=35 table.", tier.pick(96, 1600), 20, large_strategy, check_large, |c| json!({"k": c.k, "samples": c.n, "rows": c.rows, "fits64": c.fits64})),
     ]
 }
 
